@@ -289,11 +289,21 @@ def run(ctx, chk):
     _g5 = prog.global_for(prog.fn("cbor_load"), "cbor_load.callbacks")
     _w5 = {n_: getattr(el_, "name", None) for n_, el_ in zip(tables.callback_fields(prog), _g5["init_val"].elems)}
     check_break(chk, "C05.break", prog, cache_, _ts5.CallSites(prog, eff, cache_, _H5, _PA5), _PA5, _w5["indef_break"])
+    chk.rule("C05.attach", "what the grammar forbids is refused where it is attached: every call the builders make to an operation with an asserted "
+             "type / flavour precondition establishes it on the path, so a child that is not a definite chunk of the open string's kind "
+             "(a nested indefinite string, for one) reaches the syntax-error arm instead of being added (shared with C02.attach)")
+    from props.c02 import check_builder_preconditions
+    check_builder_preconditions(chk, "C05.attach", _ts5.CallSites(prog, eff, cache_, _H5, _PA5), _w5)
     chk.rule("C05.drain", "every NULL-returning path of cbor_load that follows a decoder call leaves through the drain loop: each round releases "
              "the top item and pops its record, and the loop is left on the stack-empty edge - nothing the decoder built stays behind "
              "(a failed load leaves nothing allocated; shared with C01.drain)")
     from props.c01 import check_load_paths
     check_load_paths(chk, prog, eff, R_window=None, R_drain="C05.drain", R_outcome=None)
+    chk.rule("C05.push-atomic", "the decoding stack's push either links a record and counts it or refuses and leaves the stack as it was: no field of the "
+             "stack header is written on a path of _cbor_stack_push that returns NULL (a refused record allocation must not be counted - "
+             "cbor_load unwinds `size` records), and a successful push makes the returned record the top and the depth one larger")
+    import rules as _rpa
+    _rpa.check_push_atomic(chk, "C05.push-atomic", prog, eff)
     chk.rule("C05.narrowing", "no 64-bit quantity is converted to a narrower integer type except to take one byte of it or below a range "
              "test that makes the conversion lossless: with a declared count kept in 32 bits a truncated container is reported as "
              "complete instead of NOTENOUGHDATA (shared with C02.narrowing)")
